@@ -370,7 +370,7 @@ func runOuterCancel(t *testing.T, c ocCase) (out ocOutcome, err error) {
 
 func TestOuterCancel(t *testing.T) {
 	sec := vk.Sec("OuterCancel")
-	vk.Check(t, 8000, 300000, func(rt *rapid.T) {
+	vk.Check(t, 12000, 4000000, func(rt *rapid.T) {
 		c := ocCase{Workers: rapid.IntRange(2, 6).Draw(rt, "workers"), GraceMS: rapid.SampledFrom([]int{10, 1000}).Draw(rt, "graceMS")}
 		n := rapid.IntRange(1, 30).Draw(rt, "nops")
 		for i := 0; i < n; i++ {
